@@ -66,8 +66,14 @@ def cases(seed, tier):
             p['pad_extra'] = rng.randrange(0, 31)
             p['pad_byte'] = rng.choice([0, 0xff, 0x41, rng.randrange(256)])
         c = {'kind': 'ssh2', 'profile': p, 'net': gen.rand_net(rng), 'knobs': gen.rand_knobs(rng), 'pseed': rng.getrandbits(32)}
+        r3 = gen.case_rng(seed, ID, i, 'reset')
+        if r3.random() < 0.25:
+            # the peer resets one probe connection at a seeded moment (a write of the tool then fails): every packet the tool emits
+            # afterwards, on the following connections, must still be exactly the message it was meant to be
+            c['faults'] = [{'conn': r3.randrange(1, 8), 'msg': r3.choice(['banner', 'kexinit', 'kexinit', 'reply', 'group']), 'kind': 'truncate_reset', 'off': r3.choice([0, 5, 40, 10 ** 6, 10 ** 6, 10 ** 6])}]      # 10**6: the whole message, then the reset
+            c['timeout'] = 2
         r2 = gen.case_rng(seed, ID, i, 'debug')
-        if r2.random() < 0.3:
+        if 'faults' not in c and r2.random() < 0.3:
             # a peer that sends SSH_MSG_DEBUG packets (1-3, seeded message lengths) right before its key-exchange replies, in the same write
             c['debug_before'] = [r2.choice([0, 3, 40, 700]) for _ in range(r2.randrange(1, 4))]
         yield c
@@ -83,7 +89,8 @@ def run_case(case, ctx):
     faults = None
     if case['kind'] == 'ssh1' and case['flip']:
         faults = [{'conn': 1, 'msg': 'ssh1_pubkey', 'kind': 'corrupt', 'off': case['flip_off'], 'hex': 'XX'}]
-    plan = gen.server_plan(case['pseed'], ['-n', '--skip-rate-test', 'srv.example:2222'], p, port=2222, net=case['net'], knobs=case.get('knobs'))
+    plan = gen.server_plan(case['pseed'], ['-n', '--skip-rate-test'] + (['-t', str(case['timeout'])] if case.get('timeout') else []) + ['srv.example:2222'], p, port=2222, net=case['net'],
+                           knobs=case.get('knobs'), faults=case.get('faults'))
     if faults:
         # flip one bit of the SSH-1 public key packet: the honest bytes are needed first
         plan0 = copy.deepcopy(plan)
@@ -163,6 +170,8 @@ def run_case(case, ctx):
             kind = 'first' if c['ordinal'] == 0 else 'probe'
             keys.append(h(f['type'], f['payload_len'] % 8, kind))
         for r in c['rx']:
+            if r[0] == 'unexpected':
+                out.append(viol('C10 the first packet the tool sent on a connection is not a KEXINIT', 'conn %d: message type %r' % (c['ordinal'], r[1])))
             if r[0] == 'e_canonical' and not r[1]:
                 out.append(viol('C10 DH public value e is not a canonical positive mpint', 'conn %d' % c['ordinal']))
             if r[0] == 'e_in_range' and not r[1]:
